@@ -36,7 +36,12 @@ type linst struct {
 	coreIdx int
 }
 
+// Watch, if set, is called before every Program.Assemble with the spec being assembled and returns the function to
+// call afterwards (watchdog for non-terminating assemblies).
+var Watch func(s *Spec) func()
+
 type Built struct {
+	spec *Spec
 	lprog  []linst
 	labels map[int]int // label -> position in lprog
 	prog   seccomp.Program
@@ -49,7 +54,7 @@ func retVal(i int) uint32 { return 0x7ff00000 | uint32(0x100+i) }
 
 // Build performs the same call sequence on the real builder and on the abstract machine.
 func Build(s *Spec) *Built {
-	b := &Built{labels: map[int]int{}, prog: seccomp.NewProgram()}
+	b := &Built{labels: map[int]int{}, prog: seccomp.NewProgram(), spec: s.Clone()}
 	p := &b.prog
 	k := len(s.Slots)
 	nextAbs := 0
@@ -175,6 +180,9 @@ func (b *Built) Assemble() (prog []cbpf.Insn, err error, panicked any) {
 			panicked = r
 		}
 	}()
+	if Watch != nil {
+		defer Watch(b.spec)()
+	}
 	insts, err := b.prog.Assemble()
 	if err != nil {
 		return nil, err, nil
